@@ -261,6 +261,33 @@ func runCheck(o *options, overlay map[string][]byte) (*checkResult, error) {
 	t1 := time.Now()
 	solveAll(res.obls, qdir, o.timeout)
 	res.solveSecs = time.Since(t1).Seconds()
+	// The vacuity guard of a loop body has one cover per path to the loop's latch. The body is vacuous only if NO path
+	// reaches the latch: a single path made infeasible by the contract (e.g. a defensive test that the precondition
+	// already implies) is dead code under the contract, not a contradiction - it is reported as such.
+	{
+		reach := map[string]bool{}
+		key := func(ob *Obligation) string {
+			n := ob.Name
+			if i := strings.Index(n, "#cover.latch.L"); i >= 0 {
+				rest := n[i+len("#cover.latch.L"):]
+				if j := strings.Index(rest, ".e"); j >= 0 {
+					return n[:i] + "#L" + rest[:j]
+				}
+			}
+			return ""
+		}
+		for _, ob := range res.obls {
+			if k := key(ob); k != "" && ob.Cover && ob.Result.Status == "sat" {
+				reach[k] = true
+			}
+		}
+		for _, ob := range res.obls {
+			if k := key(ob); k != "" && ob.Cover && ob.Result.Status == "unsat" && reach[k] {
+				ob.Result.Status = "dead-code"
+				ob.DeadCode = true
+			}
+		}
+	}
 	for _, ob := range res.obls {
 		if !oblOK(ob) {
 			res.failed = append(res.failed, ob)
